@@ -70,6 +70,24 @@ def run_targets(items, jobs=None, budget=12, seed=0, progress=False):
                     pending.append((m, t, [pf]))
             if progress:
                 print(f'[{time.time()-t0:6.1f}s] running={len(running)} pending={len(pending)}', file=sys.stderr)
+    # modular loop cuts: every path of the entry phase and the representative path of the body phase must have reached the loop
+    # head with the same (non-havocked) state; otherwise the body phase proved something about the wrong state: undecided
+    import re as _re
+    groups = {}
+    for t, r in results.items():
+        for ob in r.get('obligations', []):
+            m = _re.match(r'(.*)\.state_at_loop_head_is_path_independent\[([0-9a-f]+)\]$', ob['name'])
+            if m:
+                base = _re.sub(r'\[loop (entry|body)\]$', '', t)
+                groups.setdefault((base, m.group(1)), {}).setdefault(m.group(2), set()).add(t)
+    for (base, loop), fps in groups.items():
+        phases = set().union(*fps.values())
+        if len(fps) != 1:
+            for t in phases:
+                results[t]['undecided'].append(f'modular cut of {loop}: the state at the loop head differs between paths ({len(fps)} fingerprints) - body phase not representative')
+        elif len(phases) < 2 and any(_re.search(r'\[loop (entry|body)\]$', t) for t in phases):
+            for t in phases:
+                results[t]['undecided'].append(f'modular cut of {loop}: only one phase was run ({sorted(phases)})')
     for t, c in crashes.items():
         results.setdefault(t, {'target': t, 'obligations': [], 'undecided': [], 'violations': [], 'paths': 0, 'covers': 0,
                                'solver_s': 0, 'by_backend': {}, 'assumptions': [], 'props': []})
